@@ -18,7 +18,8 @@ from .values import (Sym, SInt, SBool, SReal, SStr, SSeq, Cell, Obj, ExcVal, Bou
 from .ctx import CutPath
 from . import dsl
 
-REPO_PREFIX = '/repo/'
+import os
+REPO_PREFIX = os.path.join(os.path.realpath(os.environ.get('PYVC_REPO', '/repo')), '')
 
 
 class ReturnSig(Exception):
